@@ -7,6 +7,10 @@ evaluator when ORT has no kernel) and compares with torch eager.  thorough adds 
 """
 from __future__ import annotations
 
+import os as _os
+
+_os.environ.setdefault("TORCH_CPP_LOG_LEVEL", "ERROR")  # C++ TORCH_WARN lines would pollute the check's output
+
 import collections
 import os
 
